@@ -66,9 +66,16 @@ func (d *driver) reduceToCase(sc *sim.Scenario) *sim.Scenario {
 // 80 candidates or 90 s.
 func (d *driver) minimise(sc *sim.Scenario) *sim.Scenario {
 	key := sc.Violation.Key()
-	deadline := time.Now().Add(90 * time.Second)
-	budget := 80
+	deadline := time.Now().Add(150 * time.Second)
+	budget := 100
 	tries := 0
+	var allowed map[string]bool
+	if r, err := d.runScenario(sc, "min"); err == nil && r.Trouble == "" && hasKey(r, key) != nil {
+		allowed = map[string]bool{}
+		for i := range r.Violations {
+			allowed[r.Violations[i].Key()] = true
+		}
+	}
 	try := func(c *sim.Scenario) *sim.Violation {
 		if budget <= 0 || time.Now().After(deadline) {
 			return nil
@@ -79,6 +86,16 @@ func (d *driver) minimise(sc *sim.Scenario) *sim.Scenario {
 		if err != nil || r.Trouble != "" {
 			return nil
 		}
+		// a candidate that shows violations of other classes than the full
+		// scenario did is a scenario the minimiser broke (a case of the plan
+		// lost something it needs), not a smaller version of this one
+		if allowed != nil {
+			for i := range r.Violations {
+				if !allowed[r.Violations[i].Key()] {
+					return nil
+				}
+			}
+		}
 		return hasKey(r, key)
 	}
 	cur := cloneScenario(sc)
@@ -87,6 +104,67 @@ func (d *driver) minimise(sc *sim.Scenario) *sim.Scenario {
 		if v := try(c); v != nil {
 			c.Violation = v
 			cur = c
+		}
+	}
+	// pass 1a (C06/C10): a violation that needs earlier cases of the plan
+	// (state left behind in the process by an earlier packaging) does not
+	// survive the reduction to its own case: keep the plan up to the failing
+	// case and drop chunks of what precedes it while the violation persists
+	if (cur.Property == "C10" && cur.C10 != nil && len(cur.C10.Cases) > 1) && cur.Violation != nil && cur.Violation.Case != nil {
+		want, _ := json.Marshal(cur.Violation.Case)
+		cases := cur.C10.Cases
+		idx := -1
+		for i := range cases {
+			if b, _ := json.Marshal(&cases[i]); string(b) == string(want) {
+				idx = i
+				break
+			}
+		}
+		if idx >= 0 {
+			set := func(cs []sim.Case) *sim.Scenario {
+				c := cloneScenario(cur)
+				c.C10.Cases = append([]sim.Case{}, cs...)
+				return c
+			}
+			pre := append([]sim.Case{}, cases[:idx]...)
+			last := cases[idx]
+			if c := set(append(append([]sim.Case{}, pre...), last)); true {
+				if v := try(c); v != nil {
+					c.Violation = v
+					cur = c
+					for chunk := (len(pre) + 1) / 2; chunk >= 1 && len(pre) > 0; {
+						removed := false
+						for at := 0; at < len(pre); {
+							end := at + chunk
+							if end > len(pre) {
+								end = len(pre)
+							}
+							cand := append(append([]sim.Case{}, pre[:at]...), pre[end:]...)
+							c := set(append(append([]sim.Case{}, cand...), last))
+							if v := try(c); v != nil {
+								c.Violation = v
+								cur = c
+								pre = cand
+								removed = true
+							} else {
+								at = end
+							}
+							if budget <= 0 {
+								break
+							}
+						}
+						if budget <= 0 {
+							break
+						}
+						if chunk == 1 && !removed {
+							break
+						}
+						if chunk > 1 {
+							chunk = (chunk + 1) / 2
+						}
+					}
+				}
+			}
 		}
 	}
 	// pass 1b (C11): drop operations from the history
@@ -253,7 +331,10 @@ func mentions(sc *sim.Scenario, path string) bool {
 		return true
 	}
 	pb, _ := json.Marshal([]any{sc.C06, sc.C10, sc.C11})
-	return strings.Contains(string(pb), "\""+path+"\"")
+	// (also inside the configuration variants that cases carry: a key file
+	// that only a variant names must stay, or the minimised scenario fails
+	// for a reason of the minimiser's own making)
+	return strings.Contains(string(pb), "\""+path+"\"") || strings.Contains(string(pb), "@SRC@"+path)
 }
 
 func pruneDirs(tree []sim.TreeEntry) []sim.TreeEntry {
